@@ -151,13 +151,13 @@ def exp2_obs(tier, rng):
             IM = "cnl::scaled_integer<%s, cnl::power<-%d>>" % (U, W)
             cnl = "return cnl::_impl::to_rep(cnl::exp2(cnl::_impl::from_rep<%s>(a)));" % T
             if E < 0:
-                ref = ("%s const fl = static_cast<%s>(a >> %d); if (fl <= %d) return 1; "
+                ref = ("%s const fl = static_cast<%s>(a >> %d); if (static_cast<long long>(fl) <= %dLL) return 1; "
                        "%s const fr = static_cast<%s>(static_cast<%s>(a) << %d); "
                        "%s const p = cnl::_impl::to_rep(cnl::_impl::fp::evaluate_polynomial(cnl::_impl::from_rep<%s>(fr))); "
                        "return static_cast<%s>((p >> (%d - fl)) + (%s{1} << (fl - (%d))));") % (R, R, -E, E, U, U, U, W + E, U, IM, R, W + E, U, E)
                 lim = (D + E) * (1 << -E) - 1
             else:
-                ref = "%s const fl = static_cast<%s>(a << %d); if (fl <= %d) return 1; return static_cast<%s>(%s{1} << (fl - %d));" % (R, R, E, E, R, U, E)
+                ref = "%s const fl = static_cast<%s>(a << %d); if (static_cast<long long>(fl) <= %dLL) return 1; return static_cast<%s>(%s{1} << (fl - %d));" % (R, R, E, E, R, U, E)
                 lim = (D + E - 1) >> E
             lo = -(1 << (W - 1)) if sg else 0
             obs.append(kern.Ob("exp2-structure/%s/%d" % (R.replace("std::", ""), E), R, [(R, "a")], cnl, [ref], pre=["a <= %d" % lim], mode="eqcut",
